@@ -10,6 +10,7 @@ import (
 
 	"github.com/elastos/Elastos.ELA/common"
 	"github.com/elastos/Elastos.ELA/common/config"
+	"github.com/elastos/Elastos.ELA/core/types"
 	common2 "github.com/elastos/Elastos.ELA/core/types/common"
 	"github.com/elastos/Elastos.ELA/core/types/interfaces"
 	"github.com/elastos/Elastos.ELA/core/types/payload"
@@ -121,6 +122,73 @@ func c34BlockClaims(nd *node.Node, blockTxs []interfaces.Transaction) []c34Claim
 	return cl
 }
 
+// c34ProposalsAfterBlock classifies the proposals that were pending before a
+// block and are gone after the node's post-block clean-up: mined, evicted for
+// an outpoint the block spent (both by CleanSubmittedTransactions), or dropped
+// by the re-validation of CheckAndCleanAllTransactions. Right after such a
+// drop - before another clean-up could repair it - the pool's pending-proposal
+// budget total is compared with the budgets of the proposals it still holds.
+func c34ProposalsAfterBlock(c *kit.Ctx, nd *node.Node, stage string, b *types.Block, before map[common.Uint256]interfaces.Transaction) {
+	if len(before) == 0 || b == nil {
+		return
+	}
+	mined := map[common.Uint256]bool{}
+	spent := map[string]bool{}
+	for _, tx := range b.Transactions {
+		mined[tx.Hash()] = true
+		for _, in := range tx.Inputs() {
+			spent[in.ReferKey()] = true
+		}
+	}
+	s := nd.TxPool.VerifSnapshot()
+	dropped := 0
+	var droppedBudget common.Fixed64
+	for h, tx := range before {
+		if _, still := s.Txs[h]; still {
+			c.Inc("pool_proposals_kept_across_block")
+			continue
+		}
+		if mined[h] {
+			c.Inc("pool_proposals_mined")
+			continue
+		}
+		doubleSpent := false
+		for _, in := range tx.Inputs() {
+			doubleSpent = doubleSpent || spent[in.ReferKey()]
+		}
+		if doubleSpent {
+			c.Inc("pool_proposals_evicted_for_outpoint")
+			continue
+		}
+		dropped++
+		c.Inc("pool_proposals_dropped_by_recheck")
+		if p, ok := tx.Payload().(*payload.CRCProposal); ok {
+			for _, bd := range p.Budgets {
+				droppedBudget += bd.Amount
+			}
+		}
+	}
+	if dropped == 0 {
+		return
+	}
+	if droppedBudget > 0 {
+		c.Inc("pool_budget_proposals_dropped_by_recheck")
+	}
+	var want common.Fixed64
+	for _, tx := range s.Txs {
+		if p, ok := tx.Payload().(*payload.CRCProposal); ok && tx.IsCRCProposalTx() {
+			for _, bd := range p.Budgets {
+				want += bd.Amount
+			}
+		}
+	}
+	c.Inc("budget_total_checked_after_recheck_drop")
+	if want != s.ProposalsUsedAmount {
+		c.Violate("proposals-used-amount-mismatch", fmt.Sprintf("%s: right after the post-block clean-up dropped %d pending proposal(s) (budgets %d) by re-validation: proposalsUsedAmount %d != sum of held proposal budgets %d",
+			stage, dropped, int64(droppedBudget), int64(s.ProposalsUsedAmount), int64(want)), map[string]interface{}{"stage": stage})
+	}
+}
+
 // c34AfterBlockClaims runs after the block was connected and the node's
 // post-block cleanup ran: a pool tx that collided with a block tx must either
 // have been evicted or still own its key.
@@ -154,7 +222,8 @@ func init() {
 		Run:    runC34,
 		Require: []string{"steps", "invariant_checks", "submit_accepted", "submit_rejected_conflict", "blocks_with_pool_txs", "blocks_with_conflicting_txs", "removals", "capacity_rejections", "reorgs", "snapshots", "nonempty_pool_checks",
 			"shards_env:voting/dpos-era", "shards_env:committee/dpos-era", "shards_env:dposv2/dposv2-era", "blocks_with_resource_conflicting_txs",
-			"source_accepted:chain-spend", "source_accepted:producers", "source_accepted:cr-candidates", "source_accepted:proposals", "source_accepted:claim-node", "source_accepted:stake"},
+			"source_accepted:chain-spend", "source_accepted:producers", "source_accepted:cr-candidates", "source_accepted:proposals", "source_accepted:claim-node", "source_accepted:stake",
+			"pool_proposals_dropped_by_recheck", "pool_budget_proposals_dropped_by_recheck", "budget_total_checked_after_recheck_drop", "pool_proposals_kept_across_block", "pool_proposals_mined"},
 		Post: func(a *kit.Agg) {
 			n := 0
 			for k := range a.Counters {
@@ -817,6 +886,13 @@ func runC34(c *kit.Ctx) {
 			}
 			all := append(append([]interfaces.Transaction{}, sel...), extra...)
 			claims := c34BlockClaims(nd, all)
+			// pending proposals before the block (to tell afterwards which ones the re-validation dropped)
+			pendingProposals := map[common.Uint256]interfaces.Transaction{}
+			for _, tx := range nd.TxPool.GetTxsInPool() {
+				if tx.IsCRCProposalTx() {
+					pendingProposals[tx.Hash()] = tx
+				}
+			}
 			b, err := mine(all...)
 			if err != nil && len(extra) > 0 {
 				c.Inc("blocks_with_extra_txs_rejected")
@@ -862,6 +938,7 @@ func runC34(c *kit.Ctx) {
 					c.Inc("blocks_with_conflicting_txs")
 				}
 				c34AfterBlockClaims(c, nd, fmt.Sprintf("step %d (block)", i), claims)
+				c34ProposalsAfterBlock(c, nd, fmt.Sprintf("step %d (block)", i), b, pendingProposals)
 				c34CheckAgainstChain(c, nd, fmt.Sprintf("step %d after block", i))
 			}
 		case k < tReorg: // reorg depth 1-2 with empty blocks
